@@ -62,6 +62,32 @@ def h_single_policy(ctx):
         ctx.prove(f'library_loader_rejects_{len(keys)}_policies', not ok)
 
 
+def h_element_single_policy(ctx):
+    """the element constructor itself (Roadm / RoadmParams, the API used by programs that build networks without the JSON
+    loader): any two or three node-level policies together are refused, for every value; one is accepted and in force"""
+    from gnpy.core.elements import Roadm
+    from gnpy.core.exceptions import ParametersError, ConfigurationError
+    from gnpy.core.parameters import RoadmParams
+    subset = ctx.choice('element_keys', [(0,), (1,), (2,), (0, 1), (0, 2), (1, 2), (0, 1, 2)])
+    base = {'add_drop_osnr': 38, 'pmd': 0, 'pdl': 0, 'restrictions': {'preamp_variety_list': [], 'booster_variety_list': []}}
+    vals = {i: _val(ctx, KEYS[i], 'el') for i in subset}
+    params = dict(base, **{KEYS[i]: vals[i] for i in subset})
+    for how in ('RoadmParams', 'Roadm'):
+        try:
+            obj = RoadmParams(**params) if how == 'RoadmParams' else Roadm(uid='r', params=dict(params))
+            err = None
+        except (ParametersError, ConfigurationError) as e:
+            obj, err = None, e
+        info = dict(keys=[KEYS[i] for i in subset], via=how)
+        if len(subset) > 1:
+            ctx.prove('two or three policies in one element are refused', err is not None, info=info)
+            continue
+        ctx.prove('a single policy is accepted', err is None, info=dict(info, error=repr(err)))
+        if err is None and how == 'Roadm':
+            got = [obj.target_pch_out_dbm, obj.target_psd_out_mWperGHz, obj.target_out_mWperSlotWidth]
+            ctx.prove('exactly that policy is in force', sum(x is not None for x in got) == 1 and got[subset[0]] is not None, info=info)
+
+
 def h_per_degree_targets(ctx, policy):
     """set_roadm_per_degree_targets: every egress degree without its own setting receives the node default in exactly
     one of the three per-degree dicts, for every value of the default (0 dBm included); own settings are kept."""
@@ -108,7 +134,8 @@ def h_per_degree_targets(ctx, policy):
 
 
 def jobs(tier):
-    js = [dict(name='H6b:single_policy', module='harness.c06b', fn='h_single_policy')]
+    js = [dict(name='H6b:single_policy', module='harness.c06b', fn='h_single_policy'),
+          dict(name='H6b:single_policy:element_constructor', module='harness.c06b', fn='h_element_single_policy')]
     for pol in ('pch', 'psd', 'psw'):
         js.append(dict(name=f'H6c:per_degree_targets:{pol}', module='harness.c06b', fn='h_per_degree_targets',
                        params=dict(policy=pol)))
